@@ -93,6 +93,17 @@ def pubsubstep(prof, quick, thorough):
             "shards": {"quick": 8, "thorough": 16}, "env": {"VKIT_PROFILE": prof}}
 
 
+PUBSUB_CHURN = (" Plus pubsubchurn: a barrier-synchronised race lane in a bubble — 30-200 rounds per case in which 1-3 subscriptions that never receive leave (Add(-1) each or one Add(-k)) "
+                "in the middle of a Send that is stopped in its delivery phase (instrumentation point 'caster armed'), released together with 0-3 further senders and an optional newcomer that "
+                "subscribes and follows the contract, all with sweeping spin offsets; oracle: no panic, everything terminates, every Send's return value equals the receipts of its token, count 0 "
+                "after every round.")
+
+
+def pubsubchurn(prof, quick, thorough):
+    return {"name": "pubsubchurn", "test": "TestPubSubChurn", "checks": {"quick": quick, "thorough": thorough},
+            "shards": {"quick": 4, "thorough": 16}, "env": {"VKIT_PROFILE": prof}, "stall_sig": prof + "/stall"}
+
+
 def pubsubfree(prof, quick, thorough):
     return {"name": "pubsubfree", "test": "TestPubSubFree", "checks": {"quick": quick, "thorough": thorough},
             "shards": {"quick": 12, "thorough": 16}, "env": {"VKIT_PROFILE": prof}, "stall_sig": prof + "/stall"}
@@ -211,12 +222,12 @@ CONFIG = {
         "jobs": [exclstep("C10", 16000, 600000), exclfree("C10", 16000, 800000)],
     },
     "C06": {
-        "rule": PUBSUB_FREE + "non-trivial = an unsubscribe overlapping a Send in logical time, or >=2 senders whose Sends overlapped; distinct = hash of the generated program." + PUBSUB_STEP,
-        "jobs": [pubsubfree("C06", 60000, 3000000), pubsubstep("C06", 12000, 500000)],
+        "rule": PUBSUB_FREE + "non-trivial = an unsubscribe overlapping a Send in logical time, or >=2 senders whose Sends overlapped; distinct = hash of the generated program." + PUBSUB_STEP + PUBSUB_CHURN,
+        "jobs": [pubsubfree("C06", 60000, 3000000), pubsubstep("C06", 12000, 500000), pubsubchurn("C06", 3000, 300000)],
     },
     "C07": {
-        "rule": PUBSUB_FREE + "non-trivial = an unsubscribe overlapping a Send's call/return interval (leaver subscribed before the Send), or an iterator that is never run; distinct = hash of the generated program." + PUBSUB_STEP,
-        "jobs": [pubsubfree("C07", 60000, 3000000), pubsubstep("C07", 12000, 500000)],
+        "rule": PUBSUB_FREE + "non-trivial = an unsubscribe overlapping a Send's call/return interval (leaver subscribed before the Send), or an iterator that is never run; distinct = hash of the generated program." + PUBSUB_STEP + PUBSUB_CHURN,
+        "jobs": [pubsubfree("C07", 60000, 3000000), pubsubstep("C07", 12000, 500000), pubsubchurn("C07", 3000, 300000)],
     },
     "C08": {
         "rule": ("three rapid engines over bigbuff.ChanCaster: (step) model-based stepper in a synctest bubble: register(1-3), receive (select on C/quit), "
